@@ -9859,6 +9859,32 @@ class NetCDFRead(IORead):
             location, connectivity_ncvar, mesh
         )
 
+        # The connectivity variable has to have one row per cell of
+        # this location of the mesh
+        connectivity_ncdims = self._ncdimensions(connectivity_ncvar)
+        if (
+            len(connectivity_ncdims) != 2
+            or connectivity_ncdims[cell_dimension] != mesh.ncdim.get(location)
+        ):
+            self._add_message(
+                parent_ncvar,
+                connectivity_ncvar,
+                message=(
+                    f"UGRID {connectivity_attr} variable",
+                    "spans incorrect dimensions",
+                ),
+                attribute={
+                    f"{mesh.mesh_ncvar}:{connectivity_attr}": (
+                        connectivity_ncvar
+                    )
+                },
+                dimensions=self.read_vars["variable_dimensions"][
+                    connectivity_ncvar
+                ],
+                variable=mesh.mesh_ncvar,
+            )
+            return []
+
         # Connectivity data
         indices, kwargs = self._create_netcdfarray(connectivity_ncvar)
 
